@@ -9,7 +9,8 @@ import (
 	"strings"
 )
 
-// SequenceMagic is the magic number for sequence pages
+// SequenceMagic is the magic number for sequence pages (sequence_magic.magic, a uint32
+// at the start of the special space)
 const SequenceMagic = 0x1717
 
 // SequenceData represents a PostgreSQL sequence
@@ -37,12 +38,12 @@ func ParseSequenceFile(data []byte) (*SequenceData, error) {
 	// Check page header
 	// pd_special points to the sequence magic number at end of page
 	special := binary.LittleEndian.Uint16(data[16:18])
-	if special == 0 || int(special) >= PageSize-2 {
+	if special == 0 || int(special) > PageSize-4 {
 		return nil, fmt.Errorf("invalid special pointer")
 	}
 
 	// Check magic number at special section
-	magic := binary.LittleEndian.Uint16(data[special:])
+	magic := binary.LittleEndian.Uint32(data[special:])
 	if magic != SequenceMagic {
 		return nil, fmt.Errorf("not a sequence file (magic: 0x%04X, expected: 0x%04X)", magic, SequenceMagic)
 	}
@@ -213,11 +214,11 @@ func IsSequenceFile(data []byte) bool {
 	}
 
 	special := binary.LittleEndian.Uint16(data[16:18])
-	if special == 0 || int(special) >= PageSize-2 {
+	if special == 0 || int(special) > PageSize-4 {
 		return false
 	}
 
-	magic := binary.LittleEndian.Uint16(data[special:])
+	magic := binary.LittleEndian.Uint32(data[special:])
 	return magic == SequenceMagic
 }
 
